@@ -5,7 +5,7 @@ def plan(tier, seed):
     q = tier == "quick"
     conds = []
     if q:
-        conds += t2_conds("c04", 3, timeout=280)
+        conds += t2_conds("c04", 3, timeout=280, split=3)
         conds += t1_conds("c04", "reduced", 4, 6, timeout=240)
         bounds = {"S1": "every command K=3 argument tokens; reduced vocabulary N=4"}
     else:
